@@ -375,4 +375,33 @@ def wellFormed (c : Cmd) : Bool :=
       | _ => false
     | _, _ => false
 
+/-! ## the model's switch cases, in the shape of `Gen.cmdCasesT` (tie theorem `C14.switch_matches_model`) -/
+
+def q (s : String) : String := "\"" ++ s ++ "\""
+def rdFn : String := "Driver.handleReadCommands"
+def wrFn : String := "Driver.handleWriteCommands"
+def orEmpty : Option String → String
+  | some s => s
+  | none => ""
+
+/-- (function, enclosing case, case label, request struct, response struct) for every case the model has -/
+def modelRows : List (String × String × String × String × String) :=
+  [(rdFn, "", "<default>", "", "")] ++
+  readResources.map (fun r => (rdFn, "", q r, orEmpty (readMsgName r), orEmpty ((readMsgName r).map respName))) ++
+  [(wrFn, "", "<default>", orEmpty (wMsgName .custom), orEmpty ((wMsgName .custom).map respName))] ++
+  writeResources.map (fun r => (wrFn, "", q r, orEmpty (wMsgName (classifyW r)), orEmpty ((wMsgName (classifyW r)).map respName))) ++
+  [(wrFn, "/" ++ q Gen.drv_ResourceROSpecID, "<default>", "", "")] ++
+  (Act.all.filter (fun a => (idMsgName true a).isSome)).map
+    (fun a => (wrFn, "/" ++ q Gen.drv_ResourceROSpecID, q a.str, orEmpty (idMsgName true a), orEmpty ((idMsgName true a).map respName))) ++
+  [(wrFn, "/" ++ q Gen.drv_ResourceAccessSpecID, "<default>", "", "")] ++
+  (Act.all.filter (fun a => (idMsgName false a).isSome)).map
+    (fun a => (wrFn, "/" ++ q Gen.drv_ResourceAccessSpecID, q a.str, orEmpty (idMsgName false a), orEmpty ((idMsgName false a).map respName)))
+
+def extractedRows : List (String × String × String × String × String) :=
+  Gen.cmdCasesT.map (fun r => (r.fn, r.outer, r.labels, r.reqType, r.respType))
+
+/-- rows present on one side only (diagnostics for a broken `switch_matches_model`) -/
+def switchDiff : List (String × String × String × String × String) × List (String × String × String × String × String) :=
+  (modelRows.filter (fun r => !extractedRows.contains r), extractedRows.filter (fun r => !modelRows.contains r))
+
 end LLRP.Command
